@@ -143,3 +143,18 @@ Qed.
 Definition tbE : table := [(AInfix, [MINUS; STAR]); (APostfix, [MINUS]); (ALeft, [PLUS; PCT])].
 Definition alphaE := [TOpd 1; TOp MINUS; TOp STAR; TOp PLUS].
 Example pratt_eq_loop_E : agree_on tbE alphaE 7 = [].  Proof. vm_compute. reflexivity. Qed.
+
+(* C19: the Expr table of grammar.txt, one representative spelling per row:
+   postfix call ; postfix ? ; left // ; left << ; left |> ; left | ; postfix between *)
+Definition tbExpr : table :=
+  [(APostfix, [11]); (APostfix, [12]); (ALeft, [13]); (ALeft, [14]); (ALeft, [15]); (ALeft, [16]); (APostfix, [17])].
+Definition alphaExpr := [TOpd 1; TOp 11; TOp 12; TOp 13; TOp 14; TOp 15; TOp 16; TOp 17].
+Example pratt_eq_loop_Expr : agree_on tbExpr alphaExpr 5 = [].  Proof. vm_compute. reflexivity. Qed.
+(* binary operators associate to the left and earlier rows bind tighter:  a | b >> c // d  =  a | (b >> (c // d)),
+   a >> b >> c = (a >> b) >> c,  postfix forms tightest *)
+Example expr_grouping_examples :
+  loop tbExpr [TOpd 1; TOp 16; TOpd 2; TOp 14; TOpd 3; TOp 13; TOpd 4]
+    = Some (Inf (Opd 1) 16 (Inf (Opd 2) 14 (Inf (Opd 3) 13 (Opd 4))), 7)
+  /\ loop tbExpr [TOpd 1; TOp 14; TOpd 2; TOp 14; TOpd 3] = Some (Inf (Inf (Opd 1) 14 (Opd 2)) 14 (Opd 3), 5)
+  /\ loop tbExpr [TOpd 1; TOp 13; TOpd 2; TOp 12] = Some (Inf (Opd 1) 13 (Post (Opd 2) 12), 4).
+Proof. vm_compute. auto. Qed.
